@@ -15,7 +15,7 @@ import ast
 from typing import Dict, List, Optional, Set, Tuple
 
 from ..cfg import (call_name, calls_in, walk_no_nested, parents_map, guards_of, attr_chain,
-                   enum_paths, const_int, base_var, enclosing_stmt)
+                   enum_paths, const_int, base_var, enclosing_stmt, ancestors)
 from ..core import AnalysisError, Ctx, Func, norm
 from ..util import local_callgraph, cycles_reachable, reachable, stmts_sorted
 from . import c16
@@ -446,12 +446,28 @@ def _worklist(ctx: Ctx, w: Func, rule="R15.5"):
     wl = norm(loops[0].test)
     init = pfind(w.node, "%s = [%s]" % (wl, start_p)) or pfind(w.node, "%s = deque([%s])" % (wl, start_p))
     take = [b_["V_c"] for _, b_ in pfind(loops[0], "V_c = %s.pop()" % wl)] + [b_["V_c"] for _, b_ in pfind(loops[0], "V_c = %s.popleft()" % wl)]
+    if not take:
+        # the popped index used in place (`atoms[stack.pop()]`): still one atom taken per iteration
+        pops_ = [c_ for c_ in calls_in(loops[0]) if call_name(c_) in ("pop", "popleft") and norm(c_.func.value) == wl and not c_.args]
+        pm5_ = parents_map(loops[0])
+        if len(pops_) == 1 and not any(isinstance(a_, (ast.For, ast.While)) and a_ is not loops[0] for a_ in ancestors(pops_[0], pm5_)):
+            take = ["<in place>"]
     ctx.ob(rule, w, loops[0], bool(init) and len(take) == 1 and isinstance(loops[0].test, ast.Name),
            "the worklist starts with the start atom and the loop takes one atom per iteration until it is empty", node=loops[0])
     if len(take) != 1:
         return
     cur = take[0]
     inner = [n_ for n_ in loops[0].body if isinstance(n_, ast.For) and norm(n_.iter) == "%s[%s].bonds" % (atoms_p, cur)]
+    if not inner:
+        # the atom object bound to a local first (`a = atoms[<taken>]` ... `for n in a.bonds`)
+        from ..pat import single_defs as _sd155
+        sd5 = _sd155(w.node)
+        for n_ in loops[0].body:
+            if isinstance(n_, ast.For) and isinstance(n_.iter, ast.Attribute) and n_.iter.attr == "bonds" and isinstance(n_.iter.value, ast.Name) \
+                    and n_.iter.value.id in sd5:
+                dv = norm(sd5[n_.iter.value.id])
+                if dv in ("%s[%s]" % (atoms_p, cur), "%s[%s.pop()]" % (atoms_p, wl), "%s[%s.popleft()]" % (atoms_p, wl)):
+                    inner = [n_]
     if not inner:
         ctx.ob(rule, w, "neighbour loop", False, "every bonded atom of the atom taken is examined -- loop over its bonds not found", node=loops[0])
         return
